@@ -8,7 +8,7 @@ from common import VERIF, same_value
 from props.c08 import rand_handler
 from props.c15 import res_equal
 
-RULE = ("evaluator configurations with every field moved away from its default (input type, approximator backend, matcher "
+RULE = ("class groups named with YAML-significant words and characters (on/off/yes/no/y/n/null/numbers/indicators/quotes), class groups given as lists of up to 14 groups; evaluator configurations with every field moved away from its default (input type, approximator backend, matcher "
         "kind/metric/threshold incl. thresholds that do not fit two decimals/many-to-one, handler tables and empty-list "
         "value, class groups of every kind, metric selections, decision metric/threshold, flags), saved -> loaded -> saved; "
         "checked: second file byte-identical, attribute trees identical, results identical on probe inputs chosen per "
@@ -75,6 +75,11 @@ def probes():
 PROBES = probes()
 
 
+GROUP_NAMES = ["Organ", "my-grp", "a b", "lesions", "on", "off", "yes", "no", "y", "n", "true", "false", "null", "1e3", "0x1f", "1_000", "12", "3.5",
+               ".inf", ".nan", "ON", "N", "a: b", "#x", "- x", "[x]", "*a", "&a", "!t", "%p", "@a", "`b", "'q", '"dq', " lead", "trail ", "k:", "?q",
+               "Null", "TRUE", "1:30", "2001-01-01", "<<", "=", "a,b", "a#b", "x #y", "> f", "a\\b", "~", "{x}", "\u00e9", "|"]
+
+
 def rand_eval_spec(rng):
     it = rng.choice(["SEMANTIC", "UNMATCHED", "MATCHED"])
     metrics = rng.sample(["IOU", "DSC", "RVD", "ASSD"], rng.randint(2, 4))
@@ -94,9 +99,22 @@ def rand_eval_spec(rng):
         keep = set(metrics) | set(rng.sample(["DSC", "IOU", "ASSD", "RVD", "clDSC"], rng.randint(0, 2)))
         hnd = {"table": [e for e in hnd["table"] if e[0] in keep], "empty_list_std": hnd["empty_list_std"]}
     groups = None
-    if rng.random() < 0.5:
-        groups = [{"name": rng.choice(["Organ", "my-grp", "a b"]), "labels": [1], "merge": False, "single": rng.random() < 0.4},
-                  {"name": "lesions", "labels": [2, 3], "merge": rng.random() < 0.4, "single": False}]
+    r = rng.random()
+    if r < 0.4:
+        # names incl. words and characters that are significant to YAML (booleans, nulls, numbers, indicators, quotes)
+        n1, n2 = rng.sample(GROUP_NAMES, 2)
+        while n1.lower() == n2.lower():
+            n1, n2 = rng.sample(GROUP_NAMES, 2)
+        groups = [{"name": n1, "labels": [1], "merge": False, "single": rng.random() < 0.4},
+                  {"name": n2, "labels": [2, 3], "merge": rng.random() < 0.4, "single": False}]
+    elif r < 0.6:
+        # groups given as a list (auto-named group_0, group_1, ...), up to 14 of them
+        k = rng.choice([2, 3, 5, 10, 11, 12, 14])
+        groups = []
+        for j in range(k):
+            labs = [j + 1] if j < 2 else ([3, k + 5] if j == 2 else [j + 1])
+            groups.append({"name": f"group_{j}", "labels": labs, "merge": j == 2 and rng.random() < 0.5, "single": j == 0 and rng.random() < 0.4,
+                           "as_list": True})
     gm = [m for m in rng.sample(["DSC", "IOU", "RVD"], rng.randint(0, 3)) if hnd is None or m in [e[0] for e in hnd["table"]]]
     cfg = E.mk_cfg(it, metrics, matcher=mk, decision=dec, handler=hnd, backend=rng.choice([None, "cc3d", "scipy"]))
     flags = {"save_group_times": rng.random() < 0.3, "log_times": rng.random() < 0.3, "verbose": rng.random() < 0.2}
